@@ -1,5 +1,6 @@
 (* CorrC05.v -- correspondence entry point for C05 (see harness/src/bin/c05.rs).
-   case: [N; bomb (-1 = none); ops...; fin]   ops: 0 | 1 | 2 n | 3 n ; fin: 20 | 21 | 22 *)
+   case: [N; bomb (-1 = none); ops...; fin]   ops: 0 | 1 | 2 n | 3 n ; fin: 20 | 21 | 22
+   or [N; bomb; 23] / [N; bomb; 24|25|26; p]: teardown of the array / builder / consumer at position p *)
 From GA Require Import Base Codec Iter.
 Local Open Scope Z_scope.
 
@@ -27,9 +28,26 @@ Definition enc_res (r : res (option Z)) : list Z :=
 Definition enc_step (p : res (option Z) * list ev) : list Z :=
   let '(r, e) := p in enc_res r ++ (zlen (drops_of e) :: drops_of e).
 
+(* teardown of the other owners, dropped at position p with the same armed destructor:
+   [23] the array itself; [24; p] ArrayBuilder, [26; p] IntrusiveArrayBuilder (prefix [0, p));
+   [25; p] ArrayConsumer (suffix [p, N)) *)
+Definition teardown (bomb : option Z) (a : list Z) (rest : list Z) : option (list Z) :=
+  let fin (l : list Z) :=
+      let '(fired, _, e) := drop_list bomb l in
+      Some ((if fired then [6] else [5]) ++ (zlen (drops_of e) :: drops_of e)) in
+  match rest with
+  | [23] => fin a
+  | [24; p] | [26; p] => fin (firstn (znat p) a)
+  | [25; p] => fin (skipn (znat p) a)
+  | _ => None
+  end.
+
 Definition run_c05 (case : list Z) : list Z :=
   match case with
   | n :: b :: rest =>
+    match teardown (if b <? 0 then None else Some b) (map Z.of_nat (seq 0 (znat n))) rest with
+    | Some out => out
+    | None =>
     let a := map Z.of_nat (seq 0 (znat n)) in
     let bomb := if b <? 0 then None else Some b in
     let '(ops, fin) := decode_dops (length rest) rest in
@@ -41,5 +59,6 @@ Definition run_c05 (case : list Z) : list Z :=
      | FDrop, Ret _ => [5]
      | _, _ => enc_res r
      end) ++ (zlen (drops_of e) :: drops_of e)
+    end
   | _ => []
   end.
